@@ -29,6 +29,34 @@ type C09Case struct {
 	Reach  bool   `json:"reach"`          // binding reaches the deepest point (else short-circuits early)
 	Ifs    int    `json:"ifs,omitempty"`  // nodes family: this many leaves are replaced by an if (5 nodes each, one of them the end-if marker)
 	Bins   int    `json:"bins,omitempty"` // nodes family: this many leaves are replaced by a two-leaf operator (3 nodes each, inlined under FastEvaluation)
+	// Consts (arity family): 0 every operand a variable, 1 every operand a constant (neutral for the
+	// operator), 2 constants followed by one variable, 3 one variable followed by constants
+	Consts int `json:"consts,omitempty"`
+	// Chan: the program is compiled without events, yet the caller attaches a channel to Expr.EventChan
+	// (an application that wires its channel to every expression); nothing is ever sent on it
+	Chan bool `json:"chan,omitempty"`
+}
+
+// neutralConst: a constant operand that neither decides nor breaks the operator.
+func neutralConst(op string) *m.Node {
+	switch {
+	case m.IsAnd(op):
+		return m.Const(true)
+	case m.IsOr(op), op == "xor":
+		return m.Const(false)
+	}
+	return m.Const(int64(1))
+}
+
+// wideConsts is wide() with constant operands in the places Consts names.
+func wideConsts(op string, n, consts int) *m.Node {
+	node := wide(op, n)
+	for i := range node.Kids {
+		if consts == 1 || (consts == 2 && i < n-1) || (consts == 3 && i > 0) {
+			node.Kids[i] = neutralConst(op)
+		}
+	}
+	return node
 }
 
 var naryOps = []string{"+", "add", "-", "sub", "*", "mul", "/", "div", "%", "mod", "and", "&", "&&", "or", "|", "||", "xor", "=", "==", "eq", "c_sum"}
@@ -298,6 +326,9 @@ func stackShape(shape, need int) *m.Node {
 func (c C09Case) tree() *m.Node {
 	switch c.Kind {
 	case "arity":
+		if c.Consts != 0 {
+			return wideConsts(c.Op, c.N, c.Consts)
+		}
 		return wide(c.Op, c.N)
 	case "flatten":
 		n := m.Op(c.Op)
@@ -426,6 +457,7 @@ func genC09(t *rapid.T) C09Case {
 		c.N = rapid.SampledFrom([]int{255, 257, 4095, 4097, 8191, 8193, 16381, 16383, 16385, 16387, 20001, 21843, 21845}).Draw(t, "deepneed")
 	case 0:
 		c.Kind, c.Op, c.N = "arity", rapid.SampledFrom(naryOps).Draw(t, "op"), rapid.IntRange(120, 135).Draw(t, "n")
+		c.Consts = pickW(t, "consts", 3, 1, 1, 1)
 	case 1:
 		ops := []string{"and", "&", "&&", "or", "|", "||"}
 		c.Kind, c.Op, c.Inner = "flatten", rapid.SampledFrom(ops).Draw(t, "op"), rapid.SampledFrom(ops).Draw(t, "inner")
@@ -449,6 +481,7 @@ func genC09(t *rapid.T) C09Case {
 		c.Kind, c.Shape, c.N = "stack", rapid.IntRange(0, 6).Draw(t, "shape"), rapid.IntRange(1, 24).Draw(t, "need")
 		c.Deep = rapid.IntRange(0, 5).Draw(t, "deep")
 	}
+	c.Chan = c.Events == 0 && rapid.IntRange(0, 2).Draw(t, "chan") == 0
 	return c
 }
 
@@ -471,6 +504,9 @@ func checkC09(c C09Case, r *Rec) *Violation {
 	}
 	ops := maxOperands(opt)
 	mustReject := ops > 127 || size > 32767 || total > 32767
+	// every operand a constant and ConstantFolding on: the call may be folded to one constant before
+	// the limits are looked at, or be rejected for its width - the property allows both
+	foldsAway := c.Kind == "arity" && c.Consts == 1 && c.Mask&MaskFold != 0 && m.IsBuiltin(c.Op)
 	where := func() string {
 		return fmt.Sprintf("case=%+v\nprogram: %d nodes after optimization (%d incl. event nodes), widest operator %d operands\nsrc=%s", c, size, total, ops, clip(src, 300))
 	}
@@ -506,22 +542,32 @@ func checkC09(c C09Case, r *Rec) *Violation {
 			}
 		}
 	}
+	if c.Consts != 0 {
+		r.Class(fmt.Sprintf("arity-with-constant-operands:%d", c.Consts))
+	}
 	if co.Err != nil {
 		if !mustReject {
 			return Violf("C09: a program within every limit is rejected: %v\n%s", co.Err, where())
 		}
 		r.Class("rejected")
 	} else {
-		if mustReject {
+		if mustReject && !foldsAway {
 			return Violf("C09: a program beyond a limit compiles (operands %d > 127, nodes %d or %d incl. event nodes > 32767)\n%s", ops, size, total, where())
 		}
 		r.Class("compiled")
+		if c.Chan {
+			e.EventChan = make(chan eval.Event, 64)
+			r.Class("channel-attached-to-a-program-without-events")
+		}
 		nodes, parents, maxStack := eval.VerifProgram(e)
+		if foldsAway {
+			total = len(nodes)
+		}
 		if len(nodes) != total {
 			return Violf("C09: the harness counts %d program nodes, the compiled program has %d (the size accounting of this check is wrong, or nodes were lost)\n%s", total, len(nodes), where())
 		}
 		need := programStackNeed(nodes, parents)
-		if c.Mask&MaskReorder == 0 {
+		if c.Mask&MaskReorder == 0 && !foldsAway {
 			if n2 := stackNeed(opt, c.Mask&MaskFast != 0); n2 != need {
 				return Violf("C09: the compiled program's shape needs %d stack slots, the source shape %d (Reordering is off, they must agree)\n%s", need, n2, where())
 			}
@@ -603,7 +649,7 @@ func sweepC09(tier string, shard, shards int, emit func(C09Case)) {
 						if !thorough && deep != 0 && deep != 1 && deep != (need+shape+mask)%6 {
 							continue
 						}
-						send(C09Case{Kind: "stack", Shape: shape, Deep: deep, N: need, Mask: mask, Events: ev, Reach: true})
+						send(C09Case{Kind: "stack", Shape: shape, Deep: deep, N: need, Mask: mask, Events: ev, Reach: true, Chan: ev == 0 && (need+shape+deep)%2 == 0})
 						if shape == 1 || shape == 4 {
 							send(C09Case{Kind: "stack", Shape: shape, Deep: deep, N: need, Mask: mask, Events: ev, Reach: false})
 						}
@@ -632,6 +678,13 @@ func sweepC09(tier string, shard, shards int, emit func(C09Case)) {
 			}
 			for _, mask := range masks {
 				send(C09Case{Kind: "arity", Op: op, N: n, Mask: mask, Events: n % 3, Reach: true})
+				// constant operands (all, all but the last, all but the first)
+				for consts := 1; consts <= 3; consts++ {
+					if !thorough && consts != 1+(n+len(op)+mask)%3 {
+						continue
+					}
+					send(C09Case{Kind: "arity", Op: op, N: n, Consts: consts, Mask: mask, Events: (n + consts) % 3, Reach: true})
+				}
 			}
 		}
 	}
@@ -683,7 +736,7 @@ func sweepC09(tier string, shard, shards int, emit func(C09Case)) {
 
 var propC09 = Prop[C09Case]{
 	ID:    "C09",
-	Rule:  "constructed boundary programs: (arity) every n-ary operator and alias with 120..135 operands; (flatten) and/or whose operand count crosses 127 only after ReduceNesting merges 2..6 inner operators, same and different operator kinds; (nodes) programs of exactly N nodes for N within +-3 of 16383, 16384 and 32767 (and 8192, 10922) built from <=127-ary layers of + or alternating and/or over variables; (stack) six nesting shapes (right-nested arithmetic, alternating and/or, wide-then-deep, if chains, comparison under and, deep-first) for every operand-stack requirement 1..24; x optimization subsets x {no events, ReportEvent, Debug} x bindings that reach the deepest point / short-circuit at once. Oracle: Compile returns exactly one of program/error, never panics; it rejects iff the harness's own count on the optimized shape exceeds a limit (operands > 127, nodes > 32767, nodes incl. event nodes > 32767); compiled programs have exactly the counted number of nodes (hook), a stack bound >= the slots the evaluation needs (hook), and Eval and TryEval return R's value. Non-trivial = a size parameter within +-2 of 127 / 16383 / 32767 or a stack requirement within +-2 of 8 / 16; distinct by parameters. The sweep part is an exhaustive grid (reduced in quick)",
+	Rule:  "constructed boundary programs: (arity) every n-ary operator and alias with 120..135 operands - variables, neutral constants, constants then a variable, a variable then constants; (flatten) and/or whose operand count crosses 127 only after ReduceNesting merges 2..6 inner operators, same and different operator kinds; (nodes) programs of exactly N nodes for N within +-3 of 16383, 16384 and 32767 (and 8192, 10922) built from <=127-ary layers of + or alternating and/or over variables; (stack) six nesting shapes (right-nested arithmetic, alternating and/or, wide-then-deep, if chains, comparison under and, deep-first) for every operand-stack requirement 1..24; x optimization subsets x {no events, ReportEvent, Debug} x bindings that reach the deepest point / short-circuit at once; programs compiled without events sometimes get a channel attached to Expr.EventChan all the same. Oracle: Compile returns exactly one of program/error, never panics; it rejects iff the harness's own count on the optimized shape exceeds a limit (operands > 127, nodes > 32767, nodes incl. event nodes > 32767); compiled programs have exactly the counted number of nodes (hook), a stack bound >= the slots the evaluation needs (hook), and Eval and TryEval return R's value. Non-trivial = a size parameter within +-2 of 127 / 16383 / 32767 or a stack requirement within +-2 of 8 / 16; distinct by parameters. The sweep part is an exhaustive grid (reduced in quick)",
 	Gen:   genC09,
 	Check: checkC09,
 	Sweep: sweepC09,
